@@ -2,13 +2,40 @@
    Statements only.  [c05_ok]: after EVERY file-system operation of EVERY
    schedule (crashes included) every table named in tables.list exists and is
    complete, the named tables have strictly increasing update-index ranges, and
-   no successful remove ever hits a table the list names at that instant. *)
+   no successful remove ever hits a table the list names at that instant.
+   "Complete" includes: of the hash type of the stack (that of the first listed
+   table).  The handles may be configured with either hash type, whatever the
+   hash type of the directory ([scripts] pairs a handle's hash type with its
+   script); [init_ok tabs]: the initial tables are numbered 0..k-1, have
+   increasing ranges and one hash type. *)
 From Coq Require Import List NArith Arith Bool.
 From RT Require Import Model.StackTrace Model.StackProto Proofs.StackInvProofs.
 Import ListNotations.
 
-Theorem C05_integrity : forall size_oracle attempts tabs scripts sched,
+Theorem C05_integrity : forall size_oracle attempts tabs (scripts : list (bool * list apiop)) sched,
   init_ok tabs ->
   c05_ok (trace_of size_oracle attempts tabs scripts sched) = true.
 Proof. exact c05_all_traces. Qed.
 Print Assumptions C05_integrity.
+
+(* non-vacuity, hash types: the schedule S9 on which the pinned tree committed a
+   table of the wrong hash type into somebody else's stack.  The directory is
+   empty; handle 0 is configured with SHA-256 and opens it; handle 1 (SHA-1)
+   opens, commits transaction 21 and reads; then handle 0 runs two Adds: its
+   view (empty) is stale, its reload refuses the SHA-1 table, so both Adds fail
+   with ErrLockFailure and nothing of handle 0 is ever listed *)
+Example C05_ex_foreign_hash :
+  let sched := map (fun _ => Step 0 None) (seq 0 2) ++ map (fun _ => Step 1 None) (seq 0 40) ++
+               map (fun _ => Step 0 None) (seq 0 40) in
+  let tr := trace_of (fun _ => 100%N) 50 []
+              [(true, [AOpen; AAdd 11 false; AAdd 12 false]); (false, [AOpen; AAdd 21 false; ARead])] sched in
+  c05_ok tr = true /\ c04_ok tr = true /\
+  existsb (fun e => match e with ERet 0 AOpen ROk => true | _ => false end) tr = true /\
+  existsb (fun e => match e with ERet 0 (AAdd 11 false) RLockFailure => true | _ => false end) tr = true /\
+  existsb (fun e => match e with ERet 0 (AAdd 12 false) RLockFailure => true | _ => false end) tr = true /\
+  existsb (fun e => match e with ERet 0 (AAdd _ _) ROk => true | _ => false end) tr = false /\
+  existsb (fun e => match e with ERet 1 (AAdd 21 false) ROk => true | _ => false end) tr = true /\
+  existsb (fun e => match e with ERet 1 ARead (RView txs _) => list_nat_eqb txs [21] | _ => false end) tr = true /\
+  (* handle 0 opened before anything was committed: the first event after its Open is handle 1's call *)
+  existsb (fun e => match e with EMem 0 [] _ => true | _ => false end) tr = true.
+Proof. vm_compute. repeat split. Qed.
